@@ -49,8 +49,8 @@ Proof.
   pose proof (rs_ret _ _ _ RS st (cname_of n) None) as Rt.
   destruct (rec st (cname_of n) None) as [s1 r1]. cbn [fst snd] in *. subst s1.
   destruct r1 as [o b|k e].
-  - destruct (Rt o b I C D ltac:(discriminate) eq_refl) as [ob [Ho [Ec [En _]]]].
-    destruct (obj_len (heap st) o) as [l|k] eqn:EL; [|dis].
+  - destruct (Rt o b I C D eq_refl) as [ob [Ho [Ec [En _]]]].
+    destruct (obj_length (heap st) o) as [l|k] eqn:EL; [|dis].
     apply obj_len_ok in EL. destruct EL as [ob' [Hg Ed]].
     assert (ob' = ob) by (destruct Ho as [Ho _]; congruence). subst ob'.
     cbn [fst snd]. unfold dom_finish. cbn [option_map].
@@ -71,7 +71,7 @@ Proof.
   intros H.
   set (st := run ctD (init ctD 2) [ODomain 0 0 (Some nA) (Some 5%Z) None None]).
   assert (G : Good ctD st).
-  { apply good_run; [exact consts_ctZ | repeat constructor; cbn; discriminate | apply good_init]. }
+  { apply good_run; apply good_init. }
   destruct (H ctD st 1 0 nAss (fst (step ctD st (ODomain 1 0 (Some nAss) None None None))) 2 G) as [_ (p & op & l & oo & Hl & _ & En & _)].
   - vm_compute. reflexivity.
   - (* the only live object of st is 'a', whose name is not 'a*' *)
